@@ -45,7 +45,7 @@ func (p *Parked) Release() {
 	}
 }
 
-var registry sync.Map // object identity -> *Gate
+var registry sync.Map   // object identity -> *Gate
 var globalHits sync.Map // point -> *atomic.Int64
 
 func init() {
